@@ -188,3 +188,8 @@ package proxyproto
 //@ requires h != nil
 //@ loop 0:
 //@   invariant 0 <= offset
+
+// The package initialiser establishes the global invariants of this file.
+//@ func init
+//@ property C08 C12
+//@ modifies **
